@@ -44,8 +44,9 @@ def Operator(token: tokens.Operator, state):
 def Field(token: tokens.Field, state):
     if token.index is not None:
         # It’s a field: by default, return TextMate-compatible field
-        fmt = '${%d:%s}' if token.name else '${%s}'
-        return fmt % (token.index, token.name)
+        if token.name:
+            return '${%d:%s}' % (token.index, token.name)
+        return '${%d}' % token.index
 
     if token.name:
         # It’s a variable
